@@ -2,6 +2,7 @@ package checks
 
 import (
 	"bufio"
+	"reflect"
 	"errors"
 	"fmt"
 	"os"
@@ -611,11 +612,58 @@ func c19NoErr(vs []any) []any {
 }
 
 // c19CatchCanon renders a run the way jq code can observe it: the values, then what `catch` would see of the error.
+// c19Acyclic reports whether a value is a finite tree of modest size (containers are tracked by identity on the current path).
+func c19Acyclic(v any) bool {
+	onPath := map[uintptr]bool{}
+	budget := 100000
+	var walk func(v any) bool
+	walk = func(v any) bool {
+		budget--
+		if budget < 0 {
+			return false
+		}
+		var kids []any
+		var id uintptr
+		switch x := v.(type) {
+		case []any:
+			if len(x) > 0 {
+				id = reflect.ValueOf(x).Pointer()
+			}
+			kids = x
+		case map[string]any:
+			id = reflect.ValueOf(x).Pointer()
+			for _, k := range x {
+				kids = append(kids, k)
+			}
+		default:
+			return true
+		}
+		if id != 0 {
+			if onPath[id] {
+				return false
+			}
+			onPath[id] = true
+			defer delete(onPath, id)
+		}
+		for _, k := range kids {
+			if !walk(k) {
+				return false
+			}
+		}
+		return true
+	}
+	return walk(v)
+}
+
 func c19CatchCanon(o Out) string {
 	s := "["
 	for i, v := range o.Vals {
 		if i > 0 {
 			s += ","
+		}
+		if !c19Acyclic(v) {
+			s += "CYCLIC-OR-TOO-DEEP-VALUE"
+			continue
 		}
 		s += univ.Canon(v)
 	}
@@ -914,6 +962,7 @@ func c19Callbacks() []gojq.CompilerOption {
 			return a[0]
 		}),
 		gojq.WithFunction("cfa", 2, 2, func(v any, a []any) any { return a }), // returns the argument slice itself
+		gojq.WithFunction("cfapp", 0, 2, func(v any, a []any) any { return append(a, v) }), // grows the argument slice it was given
 		gojq.WithFunction("cfv", 0, 2, func(v any, a []any) any { return len(a) }),
 		gojq.WithIterFunction("cit", 1, 1, func(v any, a []any) gojq.Iter {
 			x := a[0]
@@ -947,7 +996,7 @@ func c19Callbacks() []gojq.CompilerOption {
 const c19Defs = `def cf0: [.]; def cfid: .; def cf1(a): a as $a | $a; def cf2(a; b): b as $b | a as $a | [$a, $b]; ` +
 	`def cf3(a; b; c): c as $c | b as $b | a as $a | . as $i | {a: $a, b: $b, c: $c, i: $i}; ` +
 	`def cfe(a): a as $a | if $a == 2 then error({bad: $a}) else [$a] end; def cfp(a): a as $a | if $a == 2 then error("plain failure") else $a end; ` +
-	`def cfa(a; b): b as $b | a as $a | [$a, $b]; def cfv: 0; def cfv(a): a as $a | 1; def cfv(a; b): b as $b | a as $a | 2; ` +
+	`def cfa(a; b): b as $b | a as $a | [$a, $b]; def cfapp: [.]; def cfapp(a): a as $a | [$a, .]; def cfapp(a; b): b as $b | a as $a | [$a, $b, .]; def cfv: 0; def cfv(a): a as $a | 1; def cfv(a; b): b as $b | a as $a | 2; ` +
 	`def c19add($x; $n): if $x == null then $n elif ($x | type) == "number" then $x + $n else error("cannot add") end; ` +
 	`def cit(a): a as $a | ($a, c19add($a; 1), c19add($a; 2)); def cit0: empty; def cit1: . as $i | $i; def cite(a): a as $a | ($a, error("mid"), c19add($a; 2)); ` +
 	`def clazy(a; b): . as $i | b as $b | a as $a | ($a, $b, [$a, $b, $i]); `
@@ -955,7 +1004,8 @@ const c19Defs = `def cf0: [.]; def cfid: .; def cf1(a): a as $a | $a; def cf2(a;
 func c19Leaves(quick bool) []string {
 	args := []string{"1", "(1,2)", "empty", `error("x")`, ".a", ".[]?", "cf1(2)", "cit(1)", "null", "(2,3)"}
 	small := []string{"1", "(1,2)", "(3,4)", "empty", `error("x")`, ".[]?"}
-	leaves := []string{"cf0", "cfid", "cit0", "cit1", "cfv"}
+	leaves := []string{"cf0", "cfid", "cit0", "cit1", "cfv", "cfapp", "[.[]? | cfapp]", `cfapp as $x | ("abc" | ltrimstr("a")) | $x`, "[cfapp, (10 | cfapp)]", "cfapp(1)", "cfapp((1,2); (3,4))",
+		"[cfapp, cfapp(1), cfapp(1; 2)]", "cfapp as $x | cfapp(5) as $y | [$x, $y]", "[.[]? | cfapp] | map(cfapp)", "cfapp | cfapp", "[limit(3; repeat(cfapp))]"}
 	for _, a := range args {
 		for _, f := range []string{"cf1", "cfe", "cfp", "cit", "cite", "cfv"} {
 			leaves = append(leaves, fmt.Sprintf("%s(%s)", f, a))
@@ -1060,11 +1110,61 @@ func c19RunCallbacks(c *engine.Ctx) {
 			}
 		}
 	}
+	// thorough: a third level of contexts around every 7th call
+	if !quick {
+		for _, c1 := range TowerContexts {
+			for _, c2 := range TowerContexts {
+				idx++
+				if !c.MineIdx(idx) || c.Expired() {
+					continue
+				}
+				for _, c3 := range TowerContexts {
+					for li := (idx % 7); li < len(leaves); li += 7 {
+						body := strings.ReplaceAll(c1, "%", strings.ReplaceAll(c2, "%", strings.ReplaceAll(c3, "%", leaves[li])))
+						if !c.Guard(body) {
+							continue
+						}
+						c.Eval()
+						qg, err1 := gojq.Parse(TowerPrelude + body)
+						qj, err2 := gojq.Parse(TowerPrelude + c19Defs + body)
+						if err1 != nil || err2 != nil {
+							c.Unguard()
+							continue
+						}
+						cg, err1 := gojq.Compile(qg, opts...)
+						cj, err2 := gojq.Compile(qj)
+						if err1 != nil || err2 != nil {
+							if (err1 == nil) != (err2 == nil) {
+								c.Violation(body, "callback-vs-def", map[string]any{"program": body, "why": fmt.Sprintf("compiles with callbacks: %v; with definitions: %v", err1, err2)})
+							}
+							c.Unguard()
+							continue
+						}
+						for ii, in := range inputs[:2] {
+							og := RunCode(cg, in, 200000)
+							oj := RunCode(cj, in, 400000)
+							if og.Budget || oj.Budget {
+								continue
+							}
+							if len(oj.Vals) > 0 {
+								c.DistinctN(1)
+							}
+							if sg, sj := c19CatchCanon(og), c19CatchCanon(oj); sg != sj {
+								c.Violation(fmt.Sprintf("%s @ %s", body, c19CallbackInputs[ii]), "callback-vs-def", map[string]any{"program": body, "input": c19CallbackInputs[ii], "callbacks": sg, "definitions": sj})
+								break
+							}
+						}
+						c.Unguard()
+					}
+				}
+			}
+		}
+	}
 	// `builtins` is the only program that tells them apart: it lists the callbacks but not the definitions
 	if c.MineIdx(0) {
 		c.Eval()
 		og := RunText(`[builtins[] | select(test("^c(f|it|lazy)"))] | sort`, nil, 1<<20, opts...)
-		want := `[["cf0/0","cf1/1","cf2/2","cf3/3","cfa/2","cfe/1","cfid/0","cfp/1","cfv/0","cfv/1","cfv/2","cit/1","cit0/0","cit1/0","cite/1","clazy/2"]]`
+		want := `[["cf0/0","cf1/1","cf2/2","cf3/3","cfa/2","cfapp/0","cfapp/1","cfapp/2","cfe/1","cfid/0","cfp/1","cfv/0","cfv/1","cfv/2","cit/1","cit0/0","cit1/0","cite/1","clazy/2"]]`
 		if og.String() != want {
 			c.Violation("builtins", "callback-vs-def", map[string]any{"program": "builtins", "want": want, "got": og.String()})
 		}
@@ -1152,7 +1252,7 @@ func init() {
 		Level: "exploration",
 		Rule: "(a) every builtin name/arity (from `builtins`) applied to up to 4 argument tuples, plus ~70 programs naming the environment, inputs, modules, files and command-only names, on 8 inputs, compiled WITHOUT options in a driver process that is run under 7 ambient configurations (environment empty/populated incl. HOME, JQ_LIBRARY_PATH, C19_SECRET; working directory / or one full of .jq/.json files named like the modules the programs import, with a ~/.jq; stdin empty or holding values; two time zones): the driver's output must be identical line by line (now and the time-zone dependent date functions exempt), and never show a planted marker. " +
 			"(b) WithVariables: all lists of 0..4 names x 0..5 values (order, repeated names, count mismatch, 10 invalid names); WithInputIter: 6 streams (incl. an error value) x 18 programs x 1..2 runs sharing the iterator against a queue model (values and number drawn); WithEnvironLoader: 6 pair lists x 9 programs against $e bound to the model map; WithFunction/WithIterFunction: all 496 ranges x arities 0..31 (accepted iff in range, callback sees input and arguments in order, once), invalid ranges panic, 12 x 12 x 4 overlapping registrations x iterator/non-iterator x arities 0..31. " +
-			"option values reused across 3 compilations (9^3 sequences of option lists) behave as fresh ones; 25 programs (regex builtins taking their flags from the input, and others) x all histories of 2 runs over 15 inputs on one Code x the observed input give what a fresh Code gives. (c) 16 Go callbacks (values, identity, error values, plain errors, variable arity, iterators of 0/1/3 values, an iterator failing in the middle, an iterator reading its arguments lazily) versus jq definitions with the same relation: ~170 calls (argument generators 1, (1,2), empty, error, .a, .[]?, nested calls) x the 43 one-hole contexts of the C01 towers nested to depth 2 x 4 inputs; value sequences and catch-visible errors must be identical. A case is non-trivial when it yields a value.",
+			"option values reused across 3 compilations (9^3 sequences of option lists) behave as fresh ones; 25 programs (regex builtins taking their flags from the input, and others) x all histories of 2 runs over 15 inputs on one Code x the observed input give what a fresh Code gives. (c) 17 Go callbacks (values, identity, error values, plain errors, variable arity, iterators of 0/1/3 values, an iterator failing in the middle, an iterator reading its arguments lazily) versus jq definitions with the same relation: ~170 calls (argument generators 1, (1,2), empty, error, .a, .[]?, nested calls) x the 43 one-hole contexts of the C01 towers nested to depth 2 x 4 inputs (thorough: depth 3 for every 7th call x 2 inputs); value sequences and catch-visible errors must be identical. A case is non-trivial when it yields a value.",
 		Assume:         []string{"the driver process is the vcheck binary itself (`vcheck c19-ambient`), which links the /repo tree under test"},
 		Run:            c19Run,
 		Replay:         c19Replay,
